@@ -23,12 +23,7 @@ pub fn vclock_of(c: &[u64]) -> VClock<u8> {
 
 pub fn clock_json(c: &VClock<u8>, n: usize) -> Value {
     let mut z = false;
-    let v = clock_arr(&to_tree(c), n, &mut z);
-    if z {
-        json!({"zero_entry": true, "clock": v})
-    } else {
-        v
-    }
+    clock_arr(&to_tree(c), n, &mut z)
 }
 
 fn members_of(cmd: &Value) -> Vec<u8> {
@@ -45,7 +40,8 @@ pub fn orswot_proj_tree(t: &Tree, d: &Dims) -> Value {
         if mi >= 1 && mi <= d.m {
             // an entry with an empty clock is residue the model cannot express as "absent"
             if cj.as_array().unwrap().iter().all(|x| x.as_u64() == Some(0)) {
-                entries[mi - 1] = json!("EMPTY-ENTRY");
+                // (rendered as a clock of -1s: the same JSON/TLA+ type as a clock, equal to no clock of the model)
+                entries[mi - 1] = json!(vec![-1i64; d.n]);
             } else {
                 entries[mi - 1] = cj;
             }
